@@ -761,6 +761,12 @@ impl<'a, 'b> Gen<'a, 'b> {
         let mark = self.vars.len();
         let saved_loop = std::mem::replace(&mut self.in_loop, false);
         let saved_ret = self.in_fn_ret.take();
+        // language rule: a lambda cannot capture `self` of a value type (struct method)
+        let saved_self = if matches!(self.self_ty, Some(Ty::Struct(_))) { self.self_ty.take() } else { None };
+        let saved_self_mut = self.self_mutable;
+        if saved_self.is_some() {
+            self.self_mutable = false;
+        }
         self.lambda_level += 1;
         for (n, t) in &params {
             self.vars.push(Var { name: n.clone(), ty: t.clone(), mutable: false, len: None, level: self.lambda_level });
@@ -788,6 +794,10 @@ impl<'a, 'b> Gen<'a, 'b> {
         self.vars.truncate(mark);
         self.in_loop = saved_loop;
         self.in_fn_ret = saved_ret;
+        if saved_self.is_some() {
+            self.self_ty = saved_self;
+            self.self_mutable = saved_self_mut;
+        }
         self.feat("lambda");
         Expr::Lambda(params, r.clone(), Box::new(Block { stmts, tail }))
     }
